@@ -16,6 +16,7 @@ EXPLANATION = (
     "(see DESIGN: the const-evaluated universe witness is a compile-time evaluation, kept separate).")
 
 NOT_DECIDED = [
+    "derive(Identifiable) names a type by package, version, module_path!() and identifier: two same-named types declared in different function bodies of one module would share an id - no such pair exists in the workspace (every existing id is checked pairwise)",
     "that distinct types get distinct 128-bit values outside the witness universe of C14.f (2 300 / 6 600 types incl. derived fixtures): collision freedom in general",
     "identity of ids across compiler versions for derive names that embed the package version",
 ]
